@@ -90,17 +90,21 @@ def run_c20(sc):
 def run_c21(sc):
     if sc['host'] != 'HsmWithQueues' or not sc.get('spy'):
         return True, ''
-    steps, chart = charts.run_instrumented(sc, clock=FrozenClock if sc.get('coarse_clock') else None)
-    n_tr = 0
+    try:
+        steps, chart = charts.run_instrumented(sc, clock=FrozenClock if sc.get('coarse_clock') else None)
+    except RuntimeError as ex:
+        return False, 'the step raised %r with live output on' % (ex,), 'live-spy'
+    last = None
     for k, st in enumerate(steps):
-        new = len(st['trace']) - n_tr
-        n_tr = len(st['trace'])
+        # the trace is a ring buffer: a new record is a new object at its end (its length stops growing at capacity)
+        new = 1 if (st['trace'] and st['trace'][-1] is not last) else 0
+        last = st['trace'][-1] if st['trace'] else None
         if sc['live_trace'] and len(st['live_trace']) != new:
             return False, 'step %d (%s): %d new trace record(s), %d handed to the live callback (clock %s)' % (
                 k, st['sig'], new, len(st['live_trace']), 'frozen' if sc.get('coarse_clock') else 'real'), 'live-trace'
         if not sc['live_trace'] and st['live_trace']:
             return False, 'live trace off but the callback ran', 'live-trace'
-        want = st['rtc_spy'] if sc['live_spy'] else []
+        want = [l for l in st['rtc_spy'] if not l.startswith('CB:')] if sc['live_spy'] else []
         if st['live_spy'] != want:
             return False, 'step %d: live spy got %s, the step logged %s' % (k, st['live_spy'], want), 'live-spy'
     return True, ''
